@@ -743,7 +743,7 @@ PROPS["C22"]["assumptions"] = PROPS["C22"]["assumptions"] + [
 # ---- C10 (unit exprsubst, round 3) -- PARTIAL -------------------------------------------------------------------------
 TWINS["exprsubst"] = [("substitute_", "c10.subst"), ("unpack_", "c10.subst"), ("", "c10.subst")]
 PROPS["C10"] = {
-    "units": ["exprsubst"],
+    "units": ["exprsubst", "trivpass"],
     "level_text": (
         "PARTIAL: the expression-level core of the optimizing normalization. All ten functions of intermediate_representation/expression/"
         "trivial_operation_substitution.rs (Expression::substitute_trivial_operations, recursive over the expression tree, and its helpers substitute_trivial_binops, "
@@ -752,12 +752,18 @@ PROPS["C10"] = {
         "expression (trees of any depth, all widths) the rewritten expression is well-sized, has the same byte size, and has, under every valuation of its variables "
         "under which the original has a P-Code value, the SAME value (P-Code oracle of C01 over mathematical integers); every panic! / unreachable! / unwrap site is "
         "proved unreachable. This is the statement 'every read of the rewritten expression yields what the original yielded' -- the per-expression part of "
-        "'the optimized program behaves like the unoptimized one'."),
+        "'the optimized program behaves like the unoptimized one'. Round 4, unit trivpass: Project::substitute_trivial_expressions (the loop applying the rewriter to every Def and Jmp) "
+        "is extracted verbatim and verified for every program whose expressions are well-sized: nothing outside the function map changes; functions, blocks, indirect-jump targets, "
+        "number and order of defs and jumps, every def's tid / variant / assigned variable and every jump's tid / variant / targets / return targets are unchanged; every expression "
+        "field of the IR data model (Assign.value, Load.address, Store.address, Store.value, BranchInd, CBranch.condition, CallInd.target, Return -- listed from def.rs / jmp.rs, not "
+        "from the pass) has been handed to the rewriter and holds a well-sized expression of the same size and value under every valuation; from this it is PROVED that every prefix of "
+        "every block body has the same effect on variables and abstract memory with the same sequence of memory reads and writes (addresses, sizes, values) and every jump the same "
+        "condition / target value, from every state in which the original has defined values; all loops terminate, no panic site."),
     "level_note": (
         "On the pinned tree this postcondition FAILED for one arm: `1 == x - y` was rewritten to `x != y` (8 bit, x = 3, y = 1) -- repaired (fix: e127fe6, "
         "known_findings.txt); with the guard reduced to is_zero() the function verifies, and 59 million random trees of the bounded twin c10.subst showed no "
         "other class. NOT decided (the larger part of C10): the other four optimizing passes (expression propagation, dead variable elimination, control flow "
-        "propagation, stack alignment substitution), Project::substitute_trivial_expressions (the loop applying the rewriter to every Def and Jmp), and the link from "
+        "propagation, stack alignment substitution), and the link from "
         "'same value per expression' to C10's observables (memory accesses, call sequence, register state at exits): there is no program semantics behind this "
         "unit. The size clause is this rewriter's share of C12 (preservation, not establishment); C12 is not claimed. Boolean operations are read as P-Code defines "
         "them (operands 0 / 1): `x BoolAnd 1 -> x` is value-preserving only for boolean x. Trusted: restated derives (Clone / PartialEq of Expression and the "
@@ -770,7 +776,8 @@ PROPS["C10"] = {
     "sweep_twins": ["c10.subst"],
     "not_covered": [
         "expression propagation, dead variable elimination, control flow propagation, stack alignment substitution (four of the five optimizing passes)",
-        "Project::substitute_trivial_expressions (the loop over all Defs and Jmps) and the calls of the rewriter from expression_propagation",
+        "the calls of the rewriter from expression_propagation; composition of block effects along paths / across calls and with the other passes of normalize_optimize",
+        "trivpass: states in which an expression has no P-Code value (Unknown, float, division by zero); sub-register aliasing between variables (aliasing-free cells)",
         "the link from per-expression value preservation to the property's observables (no program semantics in this unit)",
         "that the program's expressions are well-sized before the rewrite; Def / Jmp level sizing (C12)",
         "values of float operations and Unknown (only the size clauses hold for them)",
@@ -781,6 +788,9 @@ PROPS["C10"] = {
         "HYPOTHESIS es_wf of the input expression (P-Code sizing rules; sizes <= 32 MiB)",
         "everything assumed by unit bitvector (apint contracts, derives, R5)",
         "64-bit target (usize = u64)",
+        "trivpass: PRECONDITION tp_prog_wf (es_wf at every expression position; establishing it is C12); cfg_key_hyp (vstd key / cmp model for Tid)",
+        "trivpass: axiom_tp_mark (uninterpreted 'visited' marker produced only by the verified wrapper tp_rewrite around the rewriter call; no semantic content); TpMem / tp_mem_load / tp_mem_store uninterpreted",
+        "trivpass: R9 values_mut -> keys + get_mut (as unit normalize); or-pattern arms with &mut bindings split per alternative; `.substitute_trivial_operations()` -> `.tp_rewrite()`; everything imported with units normalize / exprsubst",
     ],
 }
 
